@@ -283,7 +283,10 @@ def witness(w):
         n = stack.pop()
         if n.is_group:
             stack.extend(n.tokens)
-            if isinstance(n, sql.Function):
+            if 'expected_list' in w:
+                if isinstance(n, sql.IdentifierList):
+                    found.append([str(x) for x in n.get_identifiers()])
+            elif isinstance(n, sql.Function):
                 found.append([str(x) for x in n.get_parameters()])
-    ok = w['expected_parameters'] in found
-    return (not ok), 'get_parameters() gives %r' % (found,)
+    ok = (w.get('expected_list') or w['expected_parameters']) in found
+    return (not ok), 'accessor gives %r' % (found,)
